@@ -18,7 +18,7 @@ pub fn s_setwide(pk: u8, val: u8) -> TxSpec {
 
 /// S addressed by the inscription id it was deployed with (the first transaction of `start_with_s`)
 pub fn s_by_insc(pk: u8, data: Vec<u8>) -> TxSpec {
-    TxSpec::CallByInsc { pk, insc: "i1e0".into(), data, len: DEFAULT_LEN }
+    TxSpec::CallByInsc { pk, insc: crate::world::s_insc(), data, len: DEFAULT_LEN }
 }
 
 pub fn s_call(pk: u8, data: Vec<u8>) -> TxSpec {
